@@ -129,6 +129,17 @@ def _build_frame(fs):
     # same layout as ARP, but not ARP as far as the 12-tuple is concerned
     return F.eth(dst, src, 0x8035,
                  F.arp(fs["op"], src, fs["sip"], b"\0" * 6, fs["dip"]), vlan)
+  if k == "ip6":
+    # a plain IPv6 datagram (no extension headers; next header 59 "none" or
+    # an experimental protocol, so that nothing above it is interpreted):
+    # to the 1.0 table a frame with dl_type 0x86dd and nothing else
+    s6 = bytes.fromhex("20010db8000000000000000000000000")[:15] + \
+        bytes([fs.get("h6", 1)])
+    d6 = bytes.fromhex("20010db8000000000000000000000000")[:15] + \
+        bytes([fs.get("h6", 1) ^ 0x80])
+    hdr = struct.pack("!LHBB", (6 << 28) | (fs.get("tc", 0) << 20)
+                      | fs.get("fl", 0), len(pay), fs["nh"], 64)
+    return F.eth(dst, src, 0x86dd, hdr + s6 + d6 + pay, vlan)
   if k == "other":
     return F.eth(dst, src, fs["ethertype"], pay, vlan)
   if k == "snap" and fs.get("snapvlan"):
@@ -834,6 +845,8 @@ class Ref(object):
     self.world.take_out()
     body = F.strip_padding(raw)
     padded = body != raw
+    if st["f"].get("kind") == "ip6":
+      self.sim.probes["frame_kind_ip6"] += 1
     if padded:
       # (a datapath always has the bytes it received; what it forwards or
       # buffers is the re-serialised parse, i.e. the frame less its padding)
